@@ -8,7 +8,7 @@ from .common import WORK, MachineryError, dumps, sub_seed
 
 # trace spec -> (event kinds it consumes, header builder)
 PROJ = {
-    "TraceEvents": {"kinds": {"tickAll": ["funds", "fok"], "stepB": ["m", "t", "s", "funds", "mkts", "runs", "idxv", "iok", "idxh", "exec"],
+    "TraceEvents": {"kinds": {"tickAll": ["funds", "fok"], "tick": ["m", "t", "dok"], "stepB": ["m", "t", "s", "funds", "mkts", "runs", "idxv", "iok", "idxh", "exec"],
                               "stepE": ["m", "t", "s", "mkts", "runs", "idxv", "iok", "idxh", "exec"], "ret": ["batch"],
                               "acc": ["m", "t", "id", "obj", "buy", "mo", "px", "vol", "ttl", "mp", "p0", "run"],
                               "round": ["m", "t", "fills", "p0"], "abort": None, "init": [], "dupreg": ["m", "refused"]}},
@@ -24,7 +24,7 @@ PROJ = {
     "TraceSched": {"kinds": {"sessB": ["s"], "stepB": ["m", "s", "t"], "stepE": ["m"], "consult": ["a", "hft"],
                              "ret": ["a", "hft", "batch"], "acc": ["a", "m"], "canc": ["a", "m"], "round": ["m", "fills"], "abort": None}},
     "TraceOwner": {"kinds": {"ret": ["a", "batch"], "acc": ["a", "m", "id", "obj"], "abort": None}},
-    "TraceLedger": {"kinds": {"init": ["hold"], "acc": ["a", "m", "id"], "canc": ["a", "m", "id"], "round": ["fills"],
+    "TraceLedger": {"kinds": {"init": ["hold", "endow"], "acc": ["a", "m", "id"], "canc": ["a", "m", "id"], "round": ["fills"],
                               "applied": ["n", "hold"], "cb": None, "stepE": ["hold"], "simE": ["hold"], "abort": None}},
 }
 
@@ -104,6 +104,7 @@ SPECS_FOR = {
     "C02": [("book", "C02")],
     "C08": [("book", "C08")],
     "C03": [("TraceEvents", "C03")],
+    "C19": [("TraceEvents", "C19")],
     "C04": [("TraceOwner", "C04")],
     "C05": [("TraceLedger", "C05")],
     "C11": [("TraceLedger", "C11")],
@@ -183,6 +184,7 @@ def book_histories(runs):
         for mid, h in sorted(r["books"].items()):
             h = dict(h)
             h["src"] = "run:" + r.get("src", "?")
+            h["halt"] = bool(r.get("evhdr", {}).get("hl"))
             hs.append(h)
             owner.append(i)
     return hs, owner
